@@ -26,6 +26,10 @@ func c03(c *Ctx) {
 	c03reserve(c)
 	c03monitor(c)
 	scriptDispatch(c, "C03.R8")
+	// R9 (round 8): what the limiter takes for a store outage is the redis breaker's answer — the breaker's entry-point
+	// rules (C01) are part of this check (an entry point that returns something other than the context's error, or a hook
+	// that drops the context, sends a healthy store's requests to the private bucket)
+	runShared(c, "C01.", "C03.R9·C01.", c01)
 }
 
 // luaOrdFeasible: facts of the path agree with the ordering ord(a,b) (-1,0,1) where isA/isB classify operands.
